@@ -74,6 +74,8 @@ def run(ctx):
                        "thorough) and random sequences; after every call the 13 observers of every live object (Bytes, ExtendedBytes, TxID, "
                        "Size, counts, totals, IsCoinbase, HasDataOutputs, InputIdx/OutputIdx, PreviousOutHash, SequenceHash) must equal "
                        "TxBuild!View of the specification's object table; hash values via the hash oracle; distinct = (sequence)")
+    if ctx.tier == "thorough":
+        ctx.apalache("Add64Ind.tla", "Wraps", timeout=900)   # 64-bit wrapping sums, for all operands (symbolic, ~1 min)
     r = ctx.tlc("MC_TxBuild.tla", ctx.pick("MC_TxBuild.cfg", "MC_TxBuild_t.cfg"))
     cases = [o for o in r["emitted"] if o.get("k") == "seq"]
     ctx.cov["tlc_generated_cases"] = len(cases)
